@@ -579,13 +579,16 @@ def checkConstruct (t : St) (s : Snap) (cyc : Array Bool) (stepNo : Nat) : St :=
   let tb : Ev → Nat := fun ev => match ev with
     | .nodeOpen n => n.id | .nodeClose n => n.id | .segOpen _ => 0 | .segClose _ => 0
   let stab (m n : Node) : Bool := m.id < n.id
-  let sc := scan d tb nodes segs
+  let sn := scanNO d tb nodes segs
+  let sc := sn.1
   let k4 (x : Seg × SC) := (x.1.edge, x.1.idx, x.2.node.id, x.2.ri, x.2.nodeLeft, x.2.pos)
   let a := sc.out.map k4
   let b := (consClosed d stab stab nodes segs).map k4
+  let na := sn.2.map fun c => (c.left.id, c.right.id)
+  let nb := (nonOverlapClosed d stab nodes).map fun c => (c.left.id, c.right.id)
   t := { t with scanChecked := t.scanChecked + 1 }
-  if !sc.dupKey && (!sameSet a b || !sc.openSegs.isEmpty || !sc.openNodes.isEmpty) then
-    t := t.fail s!"cons tie (model-internal): at step {stepNo} Model/TopoCons.scan and its closed form consClosed differ ({a.length} vs {b.length} constraints; open at end: {sc.openSegs.length} segments, {sc.openNodes.length} nodes)"
+  if !sc.dupKey && (!sameSet a b || !sameSet na nb || !sc.openSegs.isEmpty || !sc.openNodes.isEmpty) then
+    t := t.fail s!"cons tie (model-internal): at step {stepNo} Model/TopoCons.scanNO and its closed forms consClosed / nonOverlapClosed differ ({a.length} vs {b.length} straight, {na.length} vs {nb.length} non-overlap constraints; open at end: {sc.openSegs.length} segments, {sc.openNodes.length} nodes)"
   -- statistics: pairs hidden by the segment's own end node (the registered blind spot)
   for n in nodes do
     for isOpen in [true, false] do
